@@ -113,8 +113,21 @@ def run_property(pid, tier="quick", repo=None, write_evidence=True, out=sys.stdo
             if counts.get(rule, 0) < minimum:
                 raise CheckerBroken("rule %s matched %d instances, floor is %d" % (rule, counts.get(rule, 0), minimum))
     except (CheckerBroken, facts.AnchorMissing) as e:
+        # fail closed: a construct the rules are anchored in is gone, so the clauses decided on it cannot be established
+        # for this tree.  Reported as a violation that names the missing anchor (exit 1), not silently skipped.
         print("CHECKER-BROKEN property=%s: %s" % (pid, e), file=out)
-        return 2
+        vdir = os.path.join(EVID, pid + ".violations")
+        path = os.path.join(vdir, "0.json")
+        if write_evidence:
+            os.makedirs(vdir, exist_ok=True)
+            for f in os.listdir(vdir):
+                os.unlink(os.path.join(vdir, f))
+            with open(path, "w") as f:
+                json.dump({"property": pid, "rule": "ANCHOR", "key": "ANCHOR:%s" % str(e)[:120], "status": "violation",
+                           "why": "the code the rules of %s are anchored in changed shape: %s; the property's clauses cannot be established for this tree" % (pid, e)}, f, indent=1)
+        print("%s ANCHOR - ANCHOR:%s\n      the clauses decided on this construct cannot be established for this tree" % (pid, str(e)[:160]), file=out)
+        print("VIOLATION property=%s replay=%s" % (pid, path), file=out)
+        return 1
     except factgen.FactgenError as e:
         print("CHECKER-BROKEN property=%s: fact generation failed: %s" % (pid, e), file=out)
         return 2
